@@ -84,6 +84,9 @@ fn one(rng: &mut Rng, fmt: &str, out: &mut UnitResult, ctxj: serde_json::Value) 
         if sh.kind == SheetKind::Work {
             // a date cell on every worksheet: the date system must reach it
             sh.cells.insert((1 + i as u32, 2), MCell { val: Val::Num(40_000.5 + i as f64), xf: Some(2), formula: None });
+            // whole-number dates and elapsed times (xls stores them as integer RK values at random)
+            sh.cells.insert((1 + i as u32, 3), MCell { val: Val::Num(3.0 + i as f64), xf: Some(if i % 2 == 0 { 4 } else { 6 }), formula: None });
+            sh.cells.insert((1 + i as u32, 4), MCell { val: Val::Num(40_000.0 + i as f64), xf: Some(if i % 2 == 0 { 2 } else { 3 }), formula: None });
             sh.cells.insert((0, 0), MCell::v(Val::Str(format!("s{}", i))));
         }
         book.sheets.push(sh);
@@ -214,6 +217,12 @@ fn one(rng: &mut Rng, fmt: &str, out: &mut UnitResult, ctxj: serde_json::Value) 
                             if r.get_value((1 + i as u32, 2)) != Some(&want) {
                                 fail(out, format!("c16|{}|date_system|{}", fmt, if book.date1904 { "1904" } else { "1900" }), json!({"sheet": sh.name, "got": format!("{:?}", r.get_value((1 + i as u32, 2)))}), &$bytes);
                                 return;
+                            }
+                            for (col, want) in [(3u32, dt(3.0 + i as f64, FmtClass::Duration, book.date1904)), (4, dt(40_000.0 + i as f64, FmtClass::Date, book.date1904))] {
+                                if r.get_value((1 + i as u32, col)) != Some(&want) {
+                                    fail(out, format!("c16|{}|date_system|{}|whole_number:{}", fmt, if book.date1904 { "1904" } else { "1900" }, if col == 3 { "duration" } else { "date" }), json!({"sheet": sh.name, "got": format!("{:?}", r.get_value((1 + i as u32, col))), "want": format!("{:?}", want)}), &$bytes);
+                                    return;
+                                }
                             }
                             if r.get_value((0, 0)) != Some(&Data::String(format!("s{}", i))) {
                                 fail(out, format!("c16|{}|sheet_content_mixup", fmt), json!({"sheet": sh.name}), &$bytes);
